@@ -183,10 +183,17 @@ func runC13Backpressure(c *mon.Case) {
 	// In half of the cases the application has stopped sending when the peer
 	// dies and the resend timeout is shorter than the ping time, so that the
 	// first write that blocks is a retransmission, not a fresh packet.
-	resendFirst := rng.Intn(2) == 0
+	mode := rng.Intn(3)
+	resendFirst := mode == 0
 	if resendFirst {
 		conf.Resend = 100 * time.Millisecond
 	}
+	// In a third of the cases the peer was sending too, and every write of
+	// the endpoint's transport takes 30 ms: when the peer dies, the receive
+	// loop is in the middle of writing an acknowledgement (that write still
+	// completes) while the send loop's next write blocks - two overlapping
+	// writes, one of which returns after the other has blocked.
+	ackInFlight := mode == 1
 	ctx, cancel := context.WithCancel(context.Background())
 	defer cancel()
 	p := eng.NewPair(conf)
@@ -203,6 +210,24 @@ func runC13Backpressure(c *mon.Case) {
 			}
 		}
 	}()
+	if ackInFlight {
+		p.C2S.SetSendCost(30 * time.Millisecond)
+		go func() {
+			for {
+				if _, err := p.C.Recv(); err != nil {
+					return
+				}
+			}
+		}()
+		go func() {
+			for i := 0; ; i++ {
+				if p.S.Send(eng.MsgBytes('b', i, 100)) != nil {
+					return
+				}
+				time.Sleep(10 * time.Millisecond)
+			}
+		}()
+	}
 	var stopSending atomic.Bool
 	var accepted atomic.Int64
 	go func() {
@@ -232,7 +257,7 @@ func runC13Backpressure(c *mon.Case) {
 	p.S2C.SetBlackhole(true, true)
 	p.C2S.SetBlockSend(true)
 	bound := k.ping + k.pong + 10*time.Second + 5*time.Second
-	rep := map[string]any{"kind": "B", "conf": conf.String(), "bound": bound.String(), "first_blocked_write_is_a_retransmission": resendFirst}
+	rep := map[string]any{"kind": "B", "conf": conf.String(), "bound": bound.String(), "first_blocked_write_is_a_retransmission": resendFirst, "acknowledgement_write_in_flight": ackInFlight}
 	select {
 	case <-p.C.VerifDone():
 		c.Shard.Max("max_detection_backpressure_ms", time.Since(t0).Milliseconds())
@@ -244,7 +269,7 @@ func runC13Backpressure(c *mon.Case) {
 	cancel()
 	go p.CloseAll()
 	c.Shard.Count("backpressure_cases", 1)
-	c.Shard.Eval(fmt.Sprintf("B|%v|%d|resendFirst=%v", k.ping, n, resendFirst))
+	c.Shard.Eval(fmt.Sprintf("B|%v|%d|mode=%d", k.ping, n, mode))
 }
 
 // runC13MailboxDeadPeer: the same situation one layer up, on the real clock: a
@@ -383,7 +408,7 @@ func runC13(c *mon.Case) {
 		runC13MailboxDeadPeer(c)
 		return
 	}
-	if c.Idx%150 == 37 {
+	if c.Idx%75 == 37 {
 		runC13Backpressure(c)
 		return
 	}
